@@ -49,6 +49,8 @@ type FieldPlan struct {
 	PtrLift bool `json:"lift,omitempty"`
 	// NoSource: map|FUNC where FUNC takes no source
 	NoSource bool `json:"nosrc,omitempty"`
+	// AddrOf: map . F | FUNC where FUNC takes a pointer to the source struct of a pointer method: the original pointer is passed
+	AddrOf bool `json:"addr,omitempty"`
 }
 
 // EnumPlan maps source member values (printed with %v) to target member values or actions.
